@@ -185,6 +185,9 @@ class AsyncSimpleClient:
                 await asyncio.wait_for(self.connected_event.wait(),
                                        timeout=timeout)
             except asyncio.TimeoutError:  # pragma: no cover
+                if self.input_buffer:
+                    # an event arrived just before the connection dropped
+                    break
                 raise TimeoutError()
             if not self.connected:
                 if self.input_buffer:
